@@ -1,4 +1,6 @@
 """C07 — nonlocal / global: OuterVar closure, resolution wiring, use-before-declaration error, registration."""
+CANON = True
+
 import ast
 
 from .. import compq, pyq
